@@ -2,6 +2,7 @@ package main
 
 import (
 	"fmt"
+	"math/big"
 	"go/token"
 	"go/types"
 	"os"
@@ -169,6 +170,13 @@ func (e *Engine) bvCert(rule string) { e.bvCerts[rule] = true }
 
 // bitsTerm is the uninterpreted bit field (x div 2^lo) mod 2^(hi-lo).
 func (e *Engine) bitsTerm(x string, lo, hi int) string {
+	if isLiteral(x) && !strings.HasPrefix(x, "(") {
+		if bi, ok := new(big.Int).SetString(x, 10); ok {
+			r := new(big.Int).Rsh(bi, uint(lo))
+			r.Mod(r, pow2[hi-lo])
+			return r.String()
+		}
+	}
 	if e.bitsUsed == nil {
 		e.bitsUsed = map[[2]int]bool{}
 	}
